@@ -19,14 +19,23 @@ import (
 	"sync"
 )
 
+type edit struct {
+	File string // path relative to the repository root
+	Old  string // must occur exactly once in File
+	New  string
+}
+
 type mutant struct {
 	ID    string
 	Props []string // properties whose check must report it
 	Rules []string // any of these rules must be among the reports
-	File  string   // path relative to the repository root
-	Old   string   // must occur exactly once in File
-	New   string
+	Edits []edit
 	Desc  string
+}
+
+// m1 builds a single-edit mutant.
+func m1(id string, props, rules []string, file, old, new, desc string) mutant {
+	return mutant{ID: id, Props: props, Rules: rules, Edits: []edit{{file, old, new}}, Desc: desc}
 }
 
 type mutantResult struct {
@@ -49,10 +58,10 @@ func selfExe() string {
 type subReport struct{ Rule, Construct, Verdict, Site, Detail string }
 
 // subRun analyses repo (optionally with one file overlaid) in a child process.
-func subRun(prop, repo string, overlay [2]string, extra ...string) (reports []subReport, loadFail bool, out string) {
+func subRun(prop, repo string, overlay [][2]string, extra ...string) (reports []subReport, loadFail bool, out string) {
 	args := []string{"-property", prop, "-tier", "quick", "-repo", repo, "-quiet-evidence"}
-	if overlay[0] != "" {
-		args = append(args, "-overlay", overlay[0]+"="+overlay[1])
+	for _, ov := range overlay {
+		args = append(args, "-overlay", ov[0]+"="+ov[1])
 	}
 	args = append(args, extra...)
 	cmd := exec.Command(selfExe(), args...)
@@ -99,13 +108,6 @@ func runMutants(ms []mutant, onlyProp, repo string) []mutantResult {
 			sem <- struct{}{}
 			defer func() { <-sem }()
 			res := mutantResult{ID: j.m.ID, Property: j.prop, Desc: j.m.Desc, Expected: j.m.Rules}
-			orig := filepath.Join(repo, j.m.File)
-			data, err := os.ReadFile(orig)
-			if err != nil || strings.Count(string(data), j.m.Old) != 1 {
-				res.Outcome = "skipped(anchor)"
-				results[i] = res
-				return
-			}
 			tmp, err := os.MkdirTemp("", "ruxmut")
 			if err != nil {
 				res.Outcome = "skipped(tmp)"
@@ -113,9 +115,36 @@ func runMutants(ms []mutant, onlyProp, repo string) []mutantResult {
 				return
 			}
 			defer os.RemoveAll(tmp)
-			mf := filepath.Join(tmp, filepath.Base(j.m.File))
-			_ = os.WriteFile(mf, []byte(strings.Replace(string(data), j.m.Old, j.m.New, 1)), 0o644)
-			reps, loadFail, _ := subRun(j.prop, repo, [2]string{orig, mf})
+			var ovs [][2]string
+			contents := map[string]string{}
+			for k, ed := range j.m.Edits {
+				orig := filepath.Join(repo, ed.File)
+				cur, have := contents[orig]
+				if !have {
+					data, err := os.ReadFile(orig)
+					if err != nil {
+						res.Outcome = "skipped(anchor)"
+						results[i] = res
+						return
+					}
+					cur = string(data)
+				}
+				if strings.Count(cur, ed.Old) != 1 {
+					res.Outcome = "skipped(anchor)"
+					results[i] = res
+					return
+				}
+				contents[orig] = strings.Replace(cur, ed.Old, ed.New, 1)
+				_ = k
+			}
+			n := 0
+			for orig, c := range contents {
+				n++
+				mf := filepath.Join(tmp, fmt.Sprintf("%d_%s", n, filepath.Base(orig)))
+				_ = os.WriteFile(mf, []byte(c), 0o644)
+				ovs = append(ovs, [2]string{orig, mf})
+			}
+			reps, loadFail, _ := subRun(j.prop, repo, ovs)
 			if loadFail {
 				res.Outcome = "invalid(does not type-check)"
 				results[i] = res
@@ -198,7 +227,7 @@ func configMatrix(run *Run, p *property, repo, vdir string) any {
 			if c.naive {
 				extra = append(extra, "-naive")
 			}
-			reps, loadFail, _ := subRun(run.Property, repo, [2]string{}, extra...)
+			reps, loadFail, _ := subRun(run.Property, repo, nil, extra...)
 			theirs := map[string]bool{}
 			for _, r := range reps {
 				theirs[r.Rule+"|"+r.Construct] = true
